@@ -32,6 +32,9 @@ SlotEntries(p, unit, where, loc, name) ==
     ELSE IF IsRangeFeat(f)
     THEN << <<name, SeqNode(<< SeqNode(<<StrNode(<<"o">>), RawNode("0")>>),
                                SeqNode(<<StrNode(IF f = "range_number" THEN FmtVar(Count, "number") ELSE <<"m">>)>>) >>)>> >>
+    ELSE IF f = "bare" THEN << <<name, StrNode(<<"LB", "LB", "SP", "v", "SP", "RB", "RB">>)>> >>
+    ELSE IF f = "bare_number" THEN << <<name, StrNode(<<"LB", "LB", "SP", "v", "SP", "RB", "RB", "SP">> \o FmtVar(<<"v">>, "number"))>> >>
+    ELSE IF f = "bare_date" THEN << <<name, StrNode(FmtVar(<<"v">>, "date") \o <<"SP", "LB", "LB", "v", "RB", "RB">>)>> >>
     ELSE IF f = "number_list" THEN << <<name, StrNode(FmtVar(<<"v">>, "number") \o <<"SP">> \o FmtVar(<<"w">>, "list"))>> >>
     ELSE << <<name, StrNode(FmtText(f))>> >>
 
@@ -68,9 +71,12 @@ WellFormed(p) ==
     /\ \A u1, u2 \in p.uses : (u1.unit = u2.unit /\ u1.where = u2.where /\ u1.loc = u2.loc) => u1 = u2
     /\ \A u1, u2 \in p.uses : (u1.unit = u2.unit /\ u1.where = u2.where) => ~(IsPluralFeat(u1.feat) /\ IsRangeFeat(u2.feat))
 
-QuickProjects == { p \in NoUse \cup Singles(0) \cup Singles(2)
+\* the same variable of the same key: printed as is in the default locale, formatted in the other one (formatters accumulate per
+\* variable across locales)
+CrossBare == { [units |-> u, uses |-> {Use(1, w, "en", "bare"), Use(1, w, "fr", f)}] : u \in {0, 2}, w \in Wheres, f \in BaseFeats \ {"plural"} }
+QuickProjects == { p \in NoUse \cup CrossBare \cup Singles(0) \cup Singles(2)
                         \cup Pairs(2, { s \in Slots(2) : s.loc = "fr" /\ s.where # "g.s" }) : WellFormed(p) }
-ThoroughProjects == { p \in NoUse \cup Singles(0) \cup Singles(2) \cup Pairs(0, Slots(0)) \cup Pairs(2, Slots(2)) : WellFormed(p) }
+ThoroughProjects == { p \in NoUse \cup CrossBare \cup Singles(0) \cup Singles(2) \cup Pairs(0, Slots(0)) \cup Pairs(2, Slots(2)) : WellFormed(p) }
 
 EmitCases == (frames = { <<u, "">> : u \in UnitsOf(proj) } /\ used = {}) => PrintT(<<"CASE", ToJson(CaseOf(proj))>>)
 MCSpec == Init /\ [][Next]_vars /\ WF_vars(Next)
